@@ -57,7 +57,9 @@ def gen_case(seed, tier):
         width = ew * ln
     else:
         fields = [cfg.choice([1, 2, 3, 4]) for _ in range(cfg.randint(1, 3))]
-        shape = {"kind": "struct", "fields": fields}
+        # field kinds: unsigned, signed, or an enumeration over a signed shape (width >= 2)
+        fkinds = [cfg.choice(["u", "u", "s", "e"] if w >= 2 else ["u", "u", "s"]) for w in fields]
+        shape = {"kind": "struct", "fields": fields, "fkinds": fkinds}
         width = sum(fields)
     depth = cfg.choice(DEPTHS)
     ninit = cfg.randint(0, depth)
@@ -65,6 +67,16 @@ def gen_case(seed, tier):
     if kind == "enum":
         members = [(1 << (width - 1)), (1 << width) - 1, 0, 1]       # bit patterns of NEG, MINUS_ONE, ZERO, ONE
         init = [cfg.choice(members) for _ in range(ninit)]
+    if kind == "struct" and "e" in fkinds:
+        # initial rows must hold members in their enumeration fields
+        def fix(raw):
+            off = 0
+            for w, fk in zip(fields, fkinds):
+                if fk == "e":
+                    raw = (raw & ~(((1 << w) - 1) << off)) | (cfg.choice([(1 << (w - 1)), (1 << w) - 1, 0, 1]) << off)
+                off += w
+            return raw
+        init = [fix(v) for v in init]
     ndom = cfg.choice([1, 1, 2])
     doms = [{"name": n, "edge": cfg.choice(["pos", "neg"]), "async": cfg.random() < 0.3} for n in ("a", "b")[:ndom]]
     wports = []
@@ -181,6 +193,15 @@ def shape_width(shape):
     return sum(shape["fields"])
 
 
+def _mk_enum(aenum, signed, w):
+    class E(aenum.Enum, shape=signed(w)):
+        NEG = -(1 << (w - 1))
+        MINUS_ONE = -1
+        ZERO = 0
+        ONE = 1
+    return E
+
+
 def build(config):
     from amaranth.hdl import unsigned, signed
     from amaranth.lib import data
@@ -211,13 +232,21 @@ def build(config):
         shape = data.ArrayLayout(unsigned(sh["elem"]), sh["len"])
         conv = lambda raw: [(raw >> (i * sh["elem"])) & ((1 << sh["elem"]) - 1) for i in range(sh["len"])]
     else:
-        fields = {"f%d" % i: unsigned(w) for i, w in enumerate(sh["fields"])}
+        from amaranth.lib import enum as aenum
+        fk = sh.get("fkinds") or ["u"] * len(sh["fields"])
+        enums = {}
+        for i, w in enumerate(sh["fields"]):
+            if fk[i] == "e":
+                enums[i] = _mk_enum(aenum, signed, w)
+        fields = {"f%d" % i: (unsigned(w) if fk[i] == "u" else signed(w) if fk[i] == "s" else enums[i])
+                  for i, w in enumerate(sh["fields"])}
         shape = data.StructLayout(fields)
         def conv(raw):
             d = {}
             off = 0
             for i, w in enumerate(sh["fields"]):
-                d["f%d" % i] = (raw >> off) & ((1 << w) - 1)
+                v = (raw >> off) & ((1 << w) - 1)
+                d["f%d" % i] = v if fk[i] == "u" else (to_signed(v, w) if fk[i] == "s" else enums[i](to_signed(v, w)))
                 off += w
             return d
     mem = Memory(shape=shape, depth=config["depth"], init=[conv(v) for v in config["init"]])
